@@ -444,7 +444,7 @@ def main():
         rp = os.path.join(ROOT, "replays", "%s-%s.json" % (prop, re.sub(r"[^A-Za-z0-9_.#@\[\]-]+", "_", oid)))
         with open(rp, "w") as fh:
             json.dump({"property": prop, "obligation": oid, "kind": "bounded stand-in (not a proof obligation)",
-                       "reproduced": True, "failing_input": b.get("input"), "observed": obs,
+                       "reproduced": True, "failing_input": obs.get("failing_inputs") or b.get("input"), "observed": obs,
                        "witnesses_tried": [{"witness": {k: b[k] for k in b if k != "props"}, "observed": obs}]}, fh, indent=1)
         rc = 1
         seen.add(oid)
